@@ -254,7 +254,7 @@ def prop(case, rec):
     if not r.ok:
         if r.error is not None and not isinstance(r.error, ZeroDivisionError):
             raise Violation('crash:' + type(r.error).__name__, f'run_trainer raised {r.error!r}', case)
-        rec.skip('trainer_did_not_complete')
+        trainer.skip_or_alarm(rec, r, case, case['entries'], case['alphabet_size'])
         return
     P = r.parser
     if case.get('file_style'):
